@@ -89,11 +89,27 @@ def run_shard(desc, ctx):
                   'dtype': DTYPES[int(rng.integers(0, 4))], 'shifted': bool(rng.integers(0, 2)), 'rot': _}, ctx)
     for r in range(4 if tier == 'quick' else 60):
         run_case({'model': [int(desc['seed']), sh, r]}, ctx)
+    if sh == 0:
+        run_case({'empties': True}, ctx)
 
 
 def run_case(case, ctx):
     if 'model' in case:
         return _model_case(case, ctx)
+    if case.get('empties'):
+        from phylib.io import array as pa
+        ctx.count(1, cell=('empties',))
+        checks = [('_spikes_per_cluster', lambda: pa._spikes_per_cluster(np.zeros(0, dtype=np.int32)) == {}),
+                  ('_spikes_in_clusters', lambda: len(pa._spikes_in_clusters(np.array([1, 2]), [])) == 0),
+                  ('_spikes_in_clusters', lambda: len(pa._spikes_in_clusters(np.zeros(0, dtype=np.int64), [1])) == 0),
+                  ('_unique', lambda: len(pa._unique(np.zeros(0, dtype=np.int64))) == 0),
+                  ('_index_of', lambda: len(pa._index_of(np.zeros(0, dtype=np.int64), [3, 4])) == 0)]
+        for name, f in checks:
+            r = call(f)
+            if not r.ok or not r.value:
+                ctx.violation('empty_input', case, '%s on an empty input: %r' % (name, r.exc if not r.ok else 'wrong result'),
+                              {'function': name}, tb=r.tb)
+        return
     from phylib.io import array as pa
     if 'rand' in case:
         rng = np.random.default_rng(case['rand'])
